@@ -2,6 +2,7 @@ package props
 
 import (
 	"fmt"
+	"strings"
 
 	"golang.org/x/tools/go/ssa"
 
@@ -123,4 +124,35 @@ func callText(w *ir.World, call ssa.CallInstruction) string {
 		return w.ExprOf(v).String()
 	}
 	return ""
+}
+
+// staleRewrite is the flat-view form of the lost-update rule for a counter section: on the call-expanded view of an entry
+// point, once a record of the section has been written, no path reaches another write of the section without reading the
+// section again in between — a value read once (before a loop, in a planning phase) and written back repeatedly drops
+// every update made in between. Returns the number of write sites judged.
+func staleRewrite(c *Ctx, rule string, roots []*ssa.Function, sec string) int {
+	w, r := c.W, c.R
+	isW := directSites(c, func(e ir.Effect) bool { return e.Kind == "StoreWrite" && e.Section == sec })
+	// (looking the record up and finding none is a read too)
+	isR := directSites(c, func(e ir.Effect) bool { return (e.Kind == "StoreRead" || e.Kind == "StoreHas") && e.Section == sec })
+	n := 0
+	for _, root := range roots {
+		fr := w.FlatRoot(root)
+		occ := w.FlatOccurrences(fr, isW)
+		if len(occ) == 0 {
+			continue
+		}
+		n += len(occ)
+		bad := ""
+		for _, o := range occ {
+			from := o
+			if hit := w.FlatReaches(fr, &from, &ir.FlatCut{Barrier: func(_ *ir.FCtx, in ssa.Instruction) bool { return isR(in) }}, func(p ir.FPos) bool { return isW(p.In) }); hit != nil {
+				bad = fmt.Sprintf("after the write at %s (via %s) the write at %s is reached again without a read of the section in between", pos(c, o.In), strings.Join(o.Ctx.Chain(), " -> "), pos(c, hit.In))
+				break
+			}
+		}
+		short := sec[strings.LastIndex(sec, ".")+1:]
+		r.Require(bad == "", rule, "rewrite|"+short+"|root="+fn(root), w.Pos(root.Pos()), "a counter record is re-read before it is written again within one operation (a value read once and written back twice loses the first update)", bad)
+	}
+	return n
 }
